@@ -467,6 +467,29 @@ def run_harness(hname, tier="quick", seed=0, only=None):
         if expect and not got_expected:
             twins_missing.append(cfg["name"])
 
+    # ---- lemmas (solver obligations discharged outside the path exploration, e.g. floating-point lemmas)
+    lemma_results = []
+    if hasattr(hmod, "lemma_specs"):
+        specs = hmod.lemma_specs(tier)
+        if only:
+            specs = [sp for sp in specs if only in sp["name"]]
+        if specs:
+            with mp.Pool(min(NPROC, len(specs))) as pool:
+                lemma_results = pool.map(hmod.run_lemma, specs)
+        for sp, r in zip(specs, lemma_results):
+            r.setdefault("lemma", sp["name"])
+            if r["status"] == "violated":
+                if r.get("replayable") and hmod.lemma_replay(r):
+                    nrep += 1
+                    path = os.path.join(EVID, "replays", "%s-%d.json" % (prop, nrep))
+                    rec = {"property": prop, "harness": hname, "cfg": {"name": "lemma:" + r["lemma"]}, "label": "lemma:" + r["lemma"], "detail": str(r.get("witness")), "inputs": [], "lemma": r}
+                    json.dump(rec, open(path, "w"), indent=1, default=str)
+                    violations.append((path, rec))
+                else:
+                    unreplayed.append({"cfg": {"name": "lemma:" + r["lemma"]}, "label": "lemma", "why": "counterexample of a reduced-precision lemma cannot be replayed on the binary64 code: %s" % (r.get("witness"),), "concrete_failures": []})
+            elif r["status"] == "error":
+                errors.append("lemma %s: %s" % (r["lemma"], r.get("detail")))
+
     # ---- verdict
     tot = {k: sum(m[k] for m in merged.values()) for k in ("paths", "done", "infeasible", "timeouts", "maybe", "decisions", "checks", "checks_symbolic", "validated")}
     unknown_checks = sum(len(m["unknown"]) for m in merged.values())
@@ -566,6 +589,8 @@ def run_harness(hname, tier="quick", seed=0, only=None):
             "unreplayed_counterexamples": len(unreplayed),
             "per_config": per_cfg if len(per_cfg) <= 400 else {"note": "%d configs" % len(per_cfg)},
             "extra": getattr(hmod, "EXTRA_EVIDENCE", {}),
+            "lemmas": [{k: v for k, v in r.items() if k != "detail" or r["status"] != "holds"} for r in lemma_results],
+            "lemmas_not_discharged": [r["lemma"] for r in lemma_results if r["status"] == "unknown"],
         },
         "assumptions": list(getattr(hmod, "ASSUMPTIONS", [])) + COMMON_ASSUMPTIONS,
         "wall_s": round(wall, 2),
